@@ -9,7 +9,7 @@ def _drift():
     import os
     import vf
     res = {}
-    for name, term in (("histories", "drift fx_all"), ("keys", "drift2 true true true")):
+    for name, term in (("histories", "drift fx_all6"), ("keys", "drift2 true true true")):
         try:
             obs = vf.read_obs(os.path.join(vf.OUT, "C11", "obs_%s.jsonl" % name))[:80]
             if not obs:
@@ -38,9 +38,9 @@ P = {
                  "C11_jk_cache_transparent", "C11_F11_refuted"],
     "streams": [{
         "name": "histories", "pkg": "./internal/rules/mechanisms", "test": "TestVerifC11",
-        "overlay": OVERLAY, "eval_module": "Run.Eval_C11", "check_term": "check fx_all",
+        "overlay": OVERLAY, "eval_module": "Run.Eval_C11", "check_term": "check fx_all6",
         "n_quick": 450, "n_thorough": 6000, "shard": 44,
-        "findings": {4: "C11-F4", 6: "C11-F6", 7: "C11-F7"},
+        "findings": {4: "C11-F4", 7: "C11-F7"},
     }, {
         "name": "keys", "pkg": "./internal/rules/mechanisms", "test": "TestVerifC11Keys",
         "overlay": OVERLAY, "eval_module": "Run.Eval_C11", "check_term": "check2 true true true",
